@@ -9,6 +9,14 @@ def _range(n):
     return range(2000, 2000 + n)
 
 
+def _range_zero(n):
+    return range(-2, n - 2)  # contains the falsy label 0 (away from both ends for n >= 4)
+
+
+def _list_falsy(n):
+    return [3, 0, '', 'b', -1, 5, 'c', 9][:n]  # falsy labels 0 and '' are ordinary labels
+
+
 def _list_str(n):
     return ['p%s' % chr(97 + i) for i in range(n)]
 
@@ -56,6 +64,8 @@ def _pd_day(n):
 
 SPAN_TYPES = {
     'range': _range,
+    'range_zero': _range_zero,
+    'list_falsy': _list_falsy,
     'list_str': _list_str,
     'list_mixed': _list_mixed,
     'tuple_int': _tuple_int,
@@ -69,7 +79,7 @@ SPAN_TYPES = {
     'pd_day': _pd_day,
 }
 
-MAX_LEN = {'list_mixed': 8, 'pd_unsorted': 8}
+MAX_LEN = {'list_mixed': 8, 'pd_unsorted': 8, 'list_falsy': 8}
 
 
 def make(kind, n):
@@ -81,7 +91,7 @@ def make(kind, n):
 def absent_label(kind):
     """A label of the right flavour that is in no span of this kind."""
     return {
-        'range': 1999, 'list_str': 'zz', 'list_mixed': 'absent', 'tuple_int': 9, 'np_int': 9, 'np_str': 'zz',
+        'range': 1999, 'range_zero': 99, 'list_falsy': 'absent', 'list_str': 'zz', 'list_mixed': 'absent', 'tuple_int': 9, 'np_int': 9, 'np_str': 'zz',
         'pd_int': 6, 'pd_str': 'zz', 'pd_unsorted': 6,
         'pd_year': pd.Period('1990', freq='Y'), 'pd_quarter': pd.Period('1990Q1', freq='Q'),
         'pd_day': pd.Timestamp('1990-01-01'),
